@@ -45,6 +45,16 @@ C12SKeysS == {SK(VX, NoName, FALSE, 1), SK(VZ, NoName, FALSE, 1), SK(VZ, NoName,
 C12LKeysS == {LK(VX, 1), LK(VZ, 1), BadLK(VX, 1)}
 C12ExecsS == {VX, VXsub, VZ}
 
+\* group rows of the C12 table: one group of 2 (and every single transaction) over keys that two
+\* members with different executor names may both touch - member j re-writing, unreported or as a
+\* foreign key, what member i wrote legitimately under the same Begin
+C12ExecsG == {VX, VXsub, VZ}
+C12SKeysG == {SK(VX, NoName, FALSE, 1), SK(VXsub, NoName, FALSE, 1), SK(VZ, NoName, FALSE, 1), SK(VZ, NoName, TRUE, 1)}
+C12LKeysG == {LK(VX, 1)}
+\* groups of 3 over one key and two executor names
+C12ExecsG3 == {VX, VZ}
+C12SKeysG3 == {SK(VX, NoName, FALSE, 1)}
+
 \* ---- C13 ----
 \* script transactions and transactions of a foreign para chain (executed by the none driver)
 C13Execs == {VX, VXother}
